@@ -1,4 +1,4 @@
 From CV Require Import Cap.Cap.
 From Coq Require Import ExtrOcamlBasic.
 Extraction Language OCaml.
-Extraction "cap_model.ml" init step enabled unfinished in_callout run run_seq.
+Extraction "cap_model.ml" init step step_early enabled unfinished in_callout run run_seq.
